@@ -80,8 +80,9 @@ def cases(draw):
     o['repeat'] = draw(st.sampled_from([1, 1, 2]))
     init = {
         'gc_threshold': draw(st.sampled_from([None, [700, 10, 10], [123, 4, 5], [0, 0, 0], [5000, 50, 100]])),
-        # (DEBUG_SAVEALL / DEBUG_LEAK as initial state keep every collected object alive in the worker: not generated)
-        'gc_debug': draw(st.sampled_from([0, 0, gc.DEBUG_UNCOLLECTABLE])),
+        # (an embedding program hunting leaks has DEBUG_SAVEALL set; the worker empties gc.garbage after every case)
+        'gc_debug': draw(st.sampled_from([0, 0, gc.DEBUG_UNCOLLECTABLE, gc.DEBUG_SAVEALL,
+                                          gc.DEBUG_SAVEALL | gc.DEBUG_UNCOLLECTABLE])),
         'filters': draw(st.integers(0, 3)),
         'patched_tb': draw(st.booleans()),
         'trace': draw(st.booleans()) and not o['coverage'] and not o['post_mortem'],
@@ -166,6 +167,7 @@ class InProc(Part):
                 sys.warnoptions[:] = ['default::ImportWarning']
             if init['gc_threshold']:
                 gc.set_threshold(*init['gc_threshold'])
+            gc.collect()       # (the harness' own garbage must not end up in gc.garbage under DEBUG_SAVEALL)
             gc.set_debug(init['gc_debug'])
             for k in range(init['filters']):
                 warnings.filterwarnings('ignore', message='ztv-c18-%d' % k)
